@@ -143,10 +143,13 @@ ANNOT = {
     'Item': [({'a': 1}, 'coerce', lambda v: _eq_item(v, 1, 'd')), ({'a': 2, 'b': 'z'}, 'coerce', lambda v: _eq_item(v, 2, 'z')),
              ({'b': 'x'}, 'bad', None), (1, 'bad', None), ({'a': 'nope'}, 'bad', None)],
     'Color': [('red', 'coerce', lambda v: v is Color.RED), ('green', 'bad', None), (1, 'bad', None)],
+    'Annotated[int, Field(gt=0)]': [(5, 'ok', lambda v: v == 5), (0, 'bad', None), (-3, 'bad', None), ('x', 'bad', None)],
+    'PositiveInt': [(2, 'ok', lambda v: v == 2), (0, 'bad', None), (-1, 'bad', None)],
+    'Annotated[str, Field(min_length=2)]': [('ab', 'ok', lambda v: v == 'ab'), ('a', 'bad', None), (1, 'bad', None)],
     'Picky': [({'n': 1}, 'coerce', lambda v: isinstance(v, Picky) and v.n == 1), ({'n': -1}, 'bad-live-exception', None)],
 }
 
-NS = {'Optional': typing.Optional, 'List': typing.List, 'Dict': typing.Dict, 'Item': Item, 'Color': Color, 'Picky': Picky,
+NS = {'Annotated': typing.Annotated, 'Field': pydantic.Field, 'PositiveInt': pydantic.PositiveInt, 'Optional': typing.Optional, 'List': typing.List, 'Dict': typing.Dict, 'Item': Item, 'Color': Color, 'Picky': Picky,
       'ViewMixin': pjrpc.server.ViewMixin}
 
 
@@ -541,7 +544,8 @@ def gen(ctx):
             plist = []
             for (n, kind, dflt) in ps:
                 a = rng.choice(anns)
-                if dflt and a in ('Item', 'Color', 'Picky', 'List[int]', 'Dict[str, int]', 'int', 'float'):
+                if dflt and (a in ('Item', 'Color', 'Picky', 'List[int]', 'Dict[str, int]', 'int', 'float', 'PositiveInt')
+                             or a.startswith('Annotated')):
                     a = rng.choice(['str', 'Optional[int]'])       # defaults must conform to the annotation
                 plist.append([n, kind, dflt, a])
             yield 'pd', dict(params=plist, with_ctx=bool(k % 2), skip=bool((k // 2) % 2),
